@@ -23,7 +23,7 @@ ASSUMPTIONS = [
 ]
 
 CLASSES = ["hexahedron", "tetra", "hexahedron20", "quad-planestrain", "quad8-planestrain", "triangle-planestrain", "mixed-hexahedron", "neo-hooke-at-rest",
-           "quad-axisymmetric", "quad8-axisymmetric", "hexahedron-orthotropic"]
+           "quad-axisymmetric", "quad8-axisymmetric", "hexahedron-orthotropic", "hexahedron-condensed"]
 
 
 def fl(lo, hi, nd=3):
@@ -73,7 +73,7 @@ def model(fem, cls, case, transform=None):
             mesh = mesh.rotate(angle_deg=transform["angles"][ax], axis=ax if dim == 3 else 2 if False else 0) if dim == 3 else mesh.rotate(angle_deg=transform["angles"][0], axis=0)
         for ax in range(dim):
             mesh = mesh.translate(move=transform["shift"][ax], axis=ax)
-    R = {"hexahedron-orthotropic": fem.RegionHexahedron, "hexahedron": fem.RegionHexahedron, "tetra": fem.RegionTetra, "hexahedron20": fem.RegionQuadraticHexahedron, "quad-planestrain": fem.RegionQuad,
+    R = {"hexahedron-condensed": fem.RegionHexahedron, "hexahedron-orthotropic": fem.RegionHexahedron, "hexahedron": fem.RegionHexahedron, "tetra": fem.RegionTetra, "hexahedron20": fem.RegionQuadraticHexahedron, "quad-planestrain": fem.RegionQuad,
          "quad8-planestrain": fem.RegionQuadraticQuad, "triangle-planestrain": fem.RegionTriangle, "quad-axisymmetric": fem.RegionQuad, "quad8-axisymmetric": fem.RegionQuadraticQuad, "mixed-hexahedron": fem.RegionHexahedron,
          "neo-hooke-at-rest": fem.RegionHexahedron}[cls]
     if cls.startswith("tetra"):
@@ -92,6 +92,10 @@ def model(fem, cls, case, transform=None):
     elif dim == 2:
         fc = fem.FieldContainer([fem.FieldPlaneStrain(region, dim=2)])
         um = fem.LinearElastic(E=E, nu=nu)
+    elif cls == "hexahedron-condensed":
+        # the nearly-incompressible solid body (pressure / volume ratio condensed on the cells) is an item of its own kind
+        fc = fem.FieldContainer([fem.Field(region, dim=3)])
+        um = fem.NeoHooke(mu=E / (2 * (1 + nu)))
     elif cls == "hexahedron-orthotropic":
         fc = fem.FieldContainer([fem.Field(region, dim=3)])
         # engineering constants of an orthotropic solid (positive definite: small Poisson ratios)
@@ -126,8 +130,15 @@ def boundaries(fem, fc, Xref, case, dim):
     return {"fix": fem.Boundary(f, mask=m)}
 
 
+def new_body(fem, um, fc, rho):
+    """the item of the analysis: a SolidBody, or the condensed nearly-incompressible body for a material without bulk modulus"""
+    if type(um).__name__ == "NeoHooke" and getattr(um, "bulk", 1) is None:
+        return fem.SolidBodyNearlyIncompressible(um, fc, bulk=25.0 * um.mu, density=rho)
+    return fem.SolidBody(um, fc, density=rho)
+
+
 def assemble_pencil(fem, fc, um, rho, bounds):
-    body = fem.SolidBody(um, fc, density=rho)
+    body = new_body(fem, um, fc, rho)
     n = int(sum(fc.fieldsizes))
     K = body.assemble.matrix().tocsr().copy()
     M = body.assemble.mass().tocsr().copy()
@@ -156,7 +167,7 @@ def check(cls, case, rec):
     xg = fc.copy() if case["seed"] % 4 == 3 else None
     bounds = boundaries(fem, xg if xg is not None else fc, Xref, case, dim)
     rho = case["rho"]
-    body = fem.SolidBody(um, fc, density=rho)
+    body = new_body(fem, um, fc, rho)
     k = case["k"]
     K, M, dof0, dof1 = assemble_pencil(fem, fc, um, rho, bounds)
     if len(dof1) <= k + 1:
@@ -165,7 +176,7 @@ def check(cls, case, rec):
             rec.reject("too few free unknowns")
             return
     items = [body]
-    if case["seed"] % 3 == 0 and cls not in ("mixed-hexahedron", "neo-hooke-at-rest"):
+    if case["seed"] % 3 == 0 and cls not in ("mixed-hexahedron", "neo-hooke-at-rest", "hexahedron-condensed"):
         # a second item of another material on the same field; the stiffness of the first or of the second item (or of
         # both) is scaled by its multiplier (e.g. a softer coating): K = sum m_i K_i, M = sum M_i
         m1, m2 = [(None, 0.35), (1.75, None), (0.6, 2.5)][(case["seed"] // 3) % 3]
@@ -177,7 +188,7 @@ def check(cls, case, rec):
         K = (1.0 if m1 is None else m1) * K + (1.0 if m2 is None else m2) * K2
         M = M + M2
         rec.label("two-items-with-multiplier")
-    elif case["seed"] % 3 == 1:
+    elif case["seed"] % 3 == 1 and cls != "hexahedron-condensed":
         # a single item with a multiplier
         m1 = 0.4 + (case["seed"] % 5) / 2
         body = fem.SolidBody(um, fc, density=rho, multiplier=m1)
